@@ -447,13 +447,14 @@ def _spaces(tier):
                     "%dx%d systems x 3 dimensions x the 26 operator/kind pairings of syscube"
                     % (len(SB), len(SB)), [Block([SB, SB, D3, OPK_QQ, range(4), range(4)], b_mags)]))
 
-    # (b4) plain numbers on either side
+    # (b4) plain numbers on either side (no conversion between two systems is involved: few systems in quick)
+    SN = S36 if thorough else S4
     def b_num(a, dim, opk, ai, bi):
         op, kL, kR = opk
         return binary_case("numbers", op, kL, kR, a, a, dim, dim, ai, bi)
     sp.append(Space("numbers: int/float on either side: %d systems x cube x {+ - * / %% x {scalar,array} x "
                     "{int,float} x 2 orders, 6 comparisons x {int,float} x 2 orders} x 4x4 magnitudes"
-                    % len(SB), [Block([SB, CUBE, OPK_NUM, range(4), range(4)], b_num)]))
+                    % len(SN), [Block([SN, CUBE, OPK_NUM, range(4), range(4)], b_num)]))
 
     # unary
     def b_un(a, dim, op, kind, ai):
